@@ -82,7 +82,17 @@ fn check_split(rules: &str, merged: &V, data: &V, params: &[V], orders: &[Vec<us
             let mut c = Choices::new(&zeros);
             crate::docw::write_doc(p, crate::docw::Style::YamlBlock, &mut c, false).text
         };
-        write_file(&pp, &text);
+        // layout bit 2: the last parameter file is a symbolic link to a file kept elsewhere under
+        // a versioned name (ConfigMap mounts, store links)
+        if layout & 4 != 0 && i + 1 == params.len() {
+            let target = dir.join(format!("store/p{}.v2", i));
+            write_file(&target, &text);
+            let _ = std::fs::create_dir_all(pp.parent().unwrap());
+            let _ = std::fs::remove_file(&pp);
+            std::os::unix::fs::symlink(&target, &pp).expect("symlink");
+        } else {
+            write_file(&pp, &text);
+        }
         ppaths.push(pp.to_string_lossy().to_string());
     }
     if as_dir {
@@ -107,7 +117,7 @@ fn check_split(rules: &str, merged: &V, data: &V, params: &[V], orders: &[Vec<us
             let ps: Vec<String> = if as_dir { vec![dir.join("params").to_string_lossy().to_string()] } else { order.iter().map(|i| ppaths[*i].clone()).collect() };
             *evals += 1;
             let r = run_mode(mode, &rps, rules, &dp.to_string_lossy(), &data.to_json(), &ps);
-            let what = format!("{:?} with -i {:?}{}{}", mode, order, if as_dir { " (as a directory)" } else { "" }, if layout & 1 != 0 { " (YAML parameter files)" } else { "" });
+            let what = format!("{:?} with -i {:?}{}{}", mode, order, if as_dir { " (as a directory)" } else { "" }, if layout & 1 != 0 { " (YAML parameter files)" } else { "" }.to_string() + if layout & 4 != 0 { " (last parameter file is a symbolic link)" } else { "" });
             if let Some(p) = &r.panic {
                 return Err((format!("{}: panic {}", what, p), format!("panic:{}", p.split(' ').next().unwrap_or(""))));
             }
@@ -282,7 +292,7 @@ fn random_case(u: &mut Choices, sz: Size) -> CaseResult {
     merged.extend(parts[0].clone());
     let merged = V::Map(merged);
     let orders = if np <= 2 { super::c04::permutations(np) } else { super::c04::permutations(np).into_iter().take(4).collect() };
-    let layout = u.below(4) as u64;
+    let layout = u.below(8) as u64;
     let mut evals = 0;
     let case = || {
         json!({"layout": layout, "rules": rules, "merged": merged.to_json(), "data": split.data.to_json(), "params": split.params.iter().map(|p| p.to_json()).collect::<Vec<_>>(),
@@ -295,7 +305,7 @@ fn random_case(u: &mut Choices, sz: Size) -> CaseResult {
             CaseResult::Pass(Info {
                 nontrivial: from_param && from_data && np >= 2,
                 key: hash_case(&[&rules, &merged.to_json(), &format!("{:?}", overlap_key)]),
-                classes: vec![format!("layout:{}{}", if layout & 1 != 0 { "yaml" } else { "json" }, if layout & 2 != 0 { "+directory" } else { "" }), format!("param-files:{}", np), format!("overlap:{}", overlap_key.is_some()), format!("runs:{}", n)],
+                classes: vec![format!("layout:{}{}{}", if layout & 1 != 0 { "yaml" } else { "json" }, if layout & 2 != 0 { "+directory" } else { "" }, if layout & 4 != 0 { "+symlink" } else { "" }), format!("param-files:{}", np), format!("overlap:{}", overlap_key.is_some()), format!("runs:{}", n)],
                 evals,
                 sample: Some(case()),
             })
